@@ -105,10 +105,22 @@ impl<T> Vec<T> {
         ensures (i as int) <= old(self)@.len(), final(self)@ == old(self)@.insert(i as int, x),
     { unimplemented!() }
     #[verifier::external_body]
+    pub fn concat(&self, other: &Vec<T>) -> (r: Vec<T>) ensures r@ == self@ + other@ { unimplemented!() }
+    #[verifier::external_body]
+    pub fn extend_from_array<const N: usize>(&mut self, a: [T; N]) ensures final(self)@ == old(self)@ + a@ { unimplemented!() }
+    #[verifier::external_body]
     pub fn append(&mut self, other: &Vec<T>) ensures final(self)@ == old(self)@ + other@ { unimplemented!() }
     /// host comparison of values is structural
     #[verifier::external_body]
     pub fn contains(&self, x: &T) -> (r: bool) ensures r == self@.contains(*x) { unimplemented!() }
+    /// host comparison of values is structural
+    #[verifier::external_body]
+    pub fn last_index_of(&self, x: &T) -> (r: Option<u32>)
+        ensures match r {
+            Some(p) => (p as int) < self@.len() && self@[p as int] == *x && forall|q: int| (p as int) < q < self@.len() ==> self@[q] != *x,
+            None => !self@.contains(*x),
+        },
+    { unimplemented!() }
     #[verifier::external_body]
     pub fn first_index_of(&self, x: &T) -> (r: Option<u32>)
         ensures r.is_some() <==> self@.contains(*x),
